@@ -34,6 +34,7 @@ for l in open(inp):
     if m["result"] != "survived": continue
     if m["op"].split(":")[0] not in classes: continue
     if os.environ.get("MUT_FILES") and not any(m["file"].endswith(x) for x in os.environ["MUT_FILES"].split(",")): continue
+    if os.environ.get("MUT_EVERY") and (m["line"] * 31 + len(m["mut"])) % int(os.environ["MUT_EVERY"]) != 0: continue
     if os.environ.get("MUT_LINES"):
         lo, hi = map(int, os.environ["MUT_LINES"].split("-"))
         if not (lo <= m["line"] <= hi): continue
@@ -59,6 +60,7 @@ def worker(k):
         open(p, "w").write("\n".join(lines))
         t0 = time.time(); det = None; sig = ""; ran = []; broken = []
         for c in checks_for(m):
+            if c in os.environ.get("MUT_SKIP", "").split(","): continue
             try:
                 r = subprocess.run(["/verif/bin/check", c, "quick"], env=env, stdout=subprocess.PIPE, stderr=subprocess.STDOUT, timeout=1500)
                 rc, out = r.returncode, r.stdout.decode(errors="replace")
